@@ -4,6 +4,8 @@
    ("PTR moved", or — for a variable whose block the function replaces by free + allocate — "ALLOC changed"). -/
 import Mpir.Proto
 import Mpir.Model.AliasMul
+import Mpir.Model.AliasGcdext
+import Mpir.Model.AliasPowm
 namespace Mpir.Ops.Alias2
 open Mpir Mpir.AliasMem
 
@@ -18,11 +20,36 @@ def answer (s0 : St) (byAlloc : Nat → Bool) (r : R St) : Option (List Tok) :=
       [.num (s.value i), .num (s.alloc i),
        .num (if byAlloc i then (if s.alloc i = s0.alloc i then 0 else 1) else (if s.ptr i = i then 0 else 1))])
 
+/-- an output that may be NULL: 7 -/
+def idxN (x : Int) : Option (Option Nat) := if x = 7 then some none else (idx x).map some
+
 def handle : Handler
   | "alias_mul", [.num w, .num u, .num v, .num _, .num v0, .num v1, .num v2, .num v3] => do
     let w ← idx w; let u ← idx u; let v ← idx v
     let s0 := ofInts [v0, v1, v2, v3]
     answer s0 (· == w) (mpz_mul w u v s0)
+  | "alias_addmul", [.num w, .num x, .num y, .num _, .num v0, .num v1, .num v2, .num v3] => do
+    let w ← idx w; let x ← idx x; let y ← idx y
+    let s0 := ofInts [v0, v1, v2, v3]
+    answer s0 (fun _ => false) (addmul w x y s0)
+  | "alias_submul", [.num w, .num x, .num y, .num _, .num v0, .num v1, .num v2, .num v3] => do
+    let w ← idx w; let x ← idx x; let y ← idx y
+    let s0 := ofInts [v0, v1, v2, v3]
+    answer s0 (fun _ => false) (submul w x y s0)
+  | "alias_gcdext", [.num g, .num sv, .num tv, .num a, .num b, .num v0, .num v1, .num v2, .num v3] => do
+    let g ← idx g; let sv ← idxN sv; let tv ← idxN tv; let a ← idx a; let b ← idx b
+    if sv = some g ∨ tv = some g ∨ (sv ≠ none ∧ sv = tv) then none else
+    let s0 := ofInts [v0, v1, v2, v3]
+    answer s0 (fun _ => false) (gcdext g sv tv a b s0)
+  | "alias_powm", [.num r, .num b, .num e, .num m, .num v0, .num v1, .num v2, .num v3] => do
+    let r ← idx r; let b ← idx b; let e ← idx e; let m ← idx m
+    let s0 := ofInts [v0, v1, v2, v3]
+    answer s0 (fun _ => false) (powm r b e m s0)
+  | "alias_powm_ui", [.num r, .num b, .num m, .num el, .num v0, .num v1, .num v2, .num v3] => do
+    let r ← idx r; let b ← idx b; let m ← idx m
+    if el < 0 ∨ el ≥ B then none else
+    let s0 := ofInts [v0, v1, v2, v3]
+    answer s0 (fun _ => false) (powm_ui r b el.toNat m s0)
   | _, _ => none
 
 end Mpir.Ops.Alias2
